@@ -126,6 +126,22 @@ def api_replay(L, N, use_obliquity, sync, what):
                 outs.append({k: r['value'][k] for k in ('tidal_heating', 'dUdM', 'dUdw', 'dUdO')})
             bad = any(abs(x) > 0 for o in outs for vv in o.values() for x in (vv if isinstance(vv, list) else [vv]))
             return bad, 'quick_tidal_dissipation(e=0, no obliquity, spin == n; l_max=%d N=%d, CPL): spin as separate array -> %r ; spin_frequency=None -> %r' % (L, N, outs[0], outs[1])
+        if what == 'sync vs explicit spin':
+            outs = []
+            for rheo in ('cpl', 'ctl'):
+                kwr = dict(kw, rheology=rheo, spin_frequency=None, fixed_k2=0.3, fixed_q=100.)
+                if rheo == 'ctl':
+                    kwr['fixed_dt'] = 0.01 / n
+                pair = []
+                for kw2 in (kwr, dict(kwr, spin_frequency=replay.arr([n]), orbital_frequency=replay.arr([n]))):
+                    r = replay.call_real([{'module': 'TidalPy.toolbox.quick_tides', 'func': 'quick_tidal_dissipation', 'args': [], 'kwargs': kw2}])[0]
+                    if not r['ok']:
+                        return True, 'quick_tidal_dissipation raised %s' % r['error']
+                    hv = r['value']['tidal_heating']
+                    pair.append(float(hv[0] if isinstance(hv, list) else hv))
+                outs.append((rheo, pair))
+            bad = any(abs(p[0] - p[1]) > 1e-9 * (abs(p[0]) + abs(p[1])) for _, p in outs)
+            return bad, 'quick_tidal_dissipation(l_max=%d, N=%d, obliquity=%s): heating with spin_frequency=None vs spin given as a separate array equal to n: %r' % (L, N, kw.get('obliquity'), outs)
         r = replay.call_real([{'module': 'TidalPy.toolbox.quick_tides', 'func': 'quick_tidal_dissipation', 'args': [], 'kwargs': kw}])[0]
         if not r['ok']:
             return True, 'quick_tidal_dissipation raised %s' % r['error']
@@ -210,6 +226,26 @@ def job_entries(L, N, use_obliquity, sync, totals):
                                             replay=api_replay(L, N, use_obliquity, sync, 'dUdw'), key='entry-dUdw:%s' % tag)))
     results.append(discharge(Obligation('%s: every stored frequency is >= 0 and keyed consistently' % tag, z3.And(*goals_fr), A,
                                         replay=api_replay(L, N, use_obliquity, sync, 'frequency sign'), key='freq:%s' % tag)))
+    if sync:
+        # the synchronous short-cut (spin IS the mean motion object) must be the general path evaluated at spin = n: nothing but exactly-zero-frequency modes may be dropped.
+        # Compared through two frequency weights (1 and the mode frequency itself), which every frequency-dependent Love number interpolates between.
+        sg = Q.sym('spin_general')
+        uniq_g, res_g = calc(sg, n, a, R, ecc, inc)
+        pairs = [(sg.re, n.re)]
+        for wname, wf in (('1', lambda f: Q(1)), ('|frequency|', lambda f: Q.of(f))):
+            conds = []
+            for qi in range(4):
+                tot_s, tot_g = Q(0), Q(0)
+                for sig, byl in res.items():
+                    for l, tup in byl.items():
+                        tot_s = tot_s + Q.of(tup[qi]) * wf(uniq[sig])
+                for sig, byl in res_g.items():
+                    for l, tup in byl.items():
+                        tot_g = tot_g + Q.of(tup[qi]) * wf(uniq_g[sig])
+                conds.append(eq_goal(tot_s, tot_g.substitute(pairs)))
+            results.append(discharge(Obligation('%s: sum over modes of (heating, dUdM, dUdw, dUdO) terms weighted by %s: synchronous short-cut == general path at spin = n' % (tag, wname),
+                                                z3.And(*conds), A, replay=api_replay(L, N, use_obliquity, sync, 'sync vs explicit spin'), key='sync-vs-general:%s' % tag,
+                                                timeout_ms=solve.qtimeout(60, 300))))
     if totals:
         comp, kconds = compliance_by_freq(uniq)
         comp = dict(reversed(list(comp.items())))      # a dict is keyed by frequency signature: insertion order must not matter
